@@ -262,7 +262,7 @@ def finish(pid, tier, seed, t0, coverage, violations, assumptions, level="model_
             h = hashlib.sha1(json.dumps(v, sort_keys=True).encode()).hexdigest()[:12]
             path = os.path.join(VERIF, "replays", f"{pid}-{h}.json")
             with open(path, "w") as f:
-                json.dump({"property": pid, "tier": tier, "seed": seed, **v}, f, indent=1)
+                json.dump({"tier": tier, "seed": seed, **v, "property": pid}, f, indent=1)
             print(f"VIOLATION property={pid} replay={path}")
             print(f"  class={v['class']} features={json.dumps(v.get('features'))}")
             if len(seen) >= 10:
